@@ -139,7 +139,7 @@ double CDF_Poisson(double expectation_value, unsigned int observed_events)
 	}
 	else
 	{
-		double gq = GammaQ(expectation_value, observed_events + 1);
+		double gq = GammaQ(expectation_value, observed_events + 1.0);
 		if(gq >= 0)
 			return gq;
 		else
@@ -157,7 +157,7 @@ double Inv_CDF_Poisson(unsigned int observed_events, double cdf)
 	else if(observed_events == 0)
 		return (-1.0) * log(cdf);
 	else
-		return Inv_GammaQ(cdf, observed_events + 1);
+		return Inv_GammaQ(cdf, observed_events + 1.0);
 }
 
 // 1.5 Chi-square distribution
